@@ -15,6 +15,14 @@ Part "tb": generated modules (3 shapes: module-level raise, nested call, tabs +
     from a scratch directory, the exception is rendered through Traceback and, per
     frame, the line carrying the marker is compared with the generated source.
 
+Part "tbh": rewrite histories of ONE path: module A is written to path P, executed and
+    rendered, then P is REWRITTEN with module B (and C), executed and rendered again
+    (an edit / re-run cycle in a long-lived process); all ordered pairs over a menu of
+    8 (thorough 12) module shapes and all ordered triples over every second shape;
+    every rendering is judged by the same oracle against the file as it is on disk at
+    that moment. Keys traceback/history/...: a failure of a later step that does not
+    occur for the same module at a path never used before.
+
 Finding keys are chosen by diagnosis of the failing rendering (is it the rendering of
 the source without its leading blank lines? does the stray line vanish without indent
 guides?), never by the input alone, so one defect keeps one key.
@@ -463,8 +471,9 @@ def _tb_cases(tier):
 _RE_FRAME = re.compile(r"^(\S+\.py):(\d+) in (\S+)$")
 
 
-def render_traceback(case, directory, modname):
-    """Writes the module, executes it, renders the traceback. -> (text, frames, output | exception)"""
+def render_traceback(case, directory, modname, keep=False):
+    """Writes the module, executes it, renders the traceback. -> (text, frames, path, output | exception).
+    keep=True leaves the file in place (history steps rewrite one path)."""
     from rich.console import Console
     from rich.traceback import Traceback
     text, frames = gen_module(case["shape"], case["b"], case["pre"], case["post"], case["trail"], case["final_nl"])
@@ -502,10 +511,11 @@ def render_traceback(case, directory, modname):
             del tb, t, ev
         return text, frames, path, out
     finally:
-        try:
-            os.remove(path)
-        except OSError:
-            pass
+        if not keep:
+            try:
+                os.remove(path)
+            except OSError:
+                pass
         linecache.clearcache()
 
 
@@ -524,25 +534,19 @@ def _tb_blocks(out, path):
     return blocks
 
 
-def check_traceback(case, directory, modname, res):
-    res.evaluations += 1
-    text, frames, path, out = render_traceback(case, directory, modname)
+def _judge_traceback(case, text, frames, path, out):
+    """The traceback oracle on one rendering. -> (None | (clause, message), clipped, blocks as parsed rows)"""
     L, T = _src_lines(text, 4)
     k = _leading_blank(L, T)
-    base_sig = ("tb", case["shape"], k > 0, case["extra"], case["trail"] > 0, case["ig"], case["ww"])
-    if isinstance(out, Exception):
-        res.violate(_crash_key("traceback", out), case, "%s: %s | module %r" % (type(out).__name__, out, text))
-        res.sig(base_sig + ("crash",))
-        return
     blocks = _tb_blocks(out, path)
     prob = None
     if [(b[0], b[1]) for b in blocks] != frames:
         prob = ("frames", "frame headers %r, frames of the exception %r" % ([(b[0], b[1]) for b in blocks], frames))
     clipped = False
-    for (lineno, fn), blk in zip(frames, blocks):
+    parsed = [_parse_numbered(blk[2])[0] for blk in blocks]
+    for (lineno, fn), blk, rows in zip(frames, blocks, parsed):
         if prob:
             break
-        rows, _g = _parse_numbered(blk[2])
         if rows is None:
             prob = ("block-malformed", "frame %s:%d: cannot split %r into marker, number, code" % (fn, lineno, blk[2]))
             break
@@ -575,9 +579,141 @@ def check_traceback(case, directory, modname, res):
                 prob = ("leading-blank-lines-shift",
                         "frame %s:%d: the block is that of the file without its %d leading blank line(s): %r; line %d "
                         "of the file is %r" % (fn, lineno, k, blk[2], lineno, L[lineno - 1]))
+    return prob, clipped, parsed
+
+
+def check_traceback(case, directory, modname, res):
+    res.evaluations += 1
+    text, frames, path, out = render_traceback(case, directory, modname)
+    L, T = _src_lines(text, 4)
+    k = _leading_blank(L, T)
+    base_sig = ("tb", case["shape"], k > 0, case["extra"], case["trail"] > 0, case["ig"], case["ww"])
+    if isinstance(out, Exception):
+        res.violate(_crash_key("traceback", out), case, "%s: %s | module %r" % (type(out).__name__, out, text))
+        res.sig(base_sig + ("crash",))
+        return
+    prob, clipped, _parsed = _judge_traceback(case, text, frames, path, out)
     if prob:
         res.violate("traceback/" + prob[0], case, "%s | module %r" % (prob[1], text))
     res.sig(base_sig + (clipped, prob[0] if prob else "ok"))
+
+
+# ------------------------------------------------------------------ part tbh (rewrite histories of one path)
+def _mod(shape, b, pre, post, trail=0, final_nl=True):
+    return {"shape": shape, "b": b, "pre": pre, "post": post, "trail": trail, "final_nl": final_nl}
+
+
+# module menu, simplest first: leading blank lines, length and raise line all vary
+H_MENU = [
+    _mod("flat", 0, 0, 0),                       # 1 line, raises at 1
+    _mod("flat", 0, 2, 2),                       # raises at 3 of 5
+    _mod("flat", 3, 0, 0),                       # 3 leading blank lines, raises at 4
+    _mod("nested", 0, 0, 1),                     # frames 3 / 2
+    _mod("nested", 2, 3, 0),                     # frames 8 / 7, interior blank line
+    _mod("nested", 1, 1, 4, trail=2),            # frames 5 / 4, long tail
+    _mod("tabs", 0, 1, 0),                       # three frames, tabs, wide characters
+    _mod("tabs", 4, 0, 2, final_nl=False),       # three frames behind 4 blank lines, no final newline
+    _mod("flat", 1, 5, 6, trail=3),              # (thorough) 16 lines
+    _mod("nested", 6, 0, 0),
+    _mod("nested", 0, 5, 6),
+    _mod("tabs", 2, 5, 0, trail=1),
+]
+
+
+def _hist_cases(tier):
+    quick = tier == "quick"
+    menu = range(8 if quick else 12)
+    sub = range(0, 8, 2) if quick else range(0, 12, 2)
+    for ig in ((True,) if quick else (True, False)):
+        for extra in ((0, 3) if quick else (0, 1, 3, 5)):
+            for pair in itertools.product(menu, repeat=2):
+                yield {"part": "tbh", "mods": list(pair), "extra": extra, "ig": ig, "ww": False}
+    for extra in (0, 3):
+        for triple in itertools.product(sub, repeat=3):
+            yield {"part": "tbh", "mods": list(triple), "extra": extra, "ig": True, "ww": False}
+
+
+def _rows_show(parsed, frames, text, case):
+    """Is every block what the file content `text` would give for that frame: all numbered rows stand
+    before the equally numbered lines of `text`, and a block is empty only where `text` has no line in range?"""
+    L, T = _src_lines(text, 4)
+    if not parsed or len(parsed) != len(frames) or any(rows is None for rows in parsed):
+        return False
+    for (lineno, _fn), rows in zip(frames, parsed):
+        if not rows and lineno - case["extra"] <= T:
+            return False
+        if not all(1 <= num <= len(L) and _piece_ok(pieces, L[num - 1], 87, case["ww"], case["ig"])
+                   for num, _mk, pieces in rows):
+            return False
+    return True
+
+
+def check_history(case, directory, modname, res):
+    """Write module 1 to a path, run + render; REWRITE the same path with module 2, run + render; ...
+    Every rendering is judged by the normal oracle against the file as it is on disk at that moment."""
+    earlier = []
+    path = None
+    try:
+        for step, mi in enumerate(case["mods"]):
+            sub = dict(H_MENU[mi], extra=case["extra"], ig=case["ig"], ww=case["ww"], part="tb")
+            res.evaluations += 1
+            text, frames, path, out = render_traceback(sub, directory, modname, keep=True)
+            crash = isinstance(out, Exception)
+            if crash:
+                prob, clipped, parsed = ("crash", "%s: %s" % (type(out).__name__, out)), False, []
+            else:
+                prob, clipped, parsed = _judge_traceback(sub, text, frames, path, out)
+            changed = bool(earlier) and earlier[-1] != text
+            res.sig(("tbh", len(case["mods"]), step, changed, bool(earlier) and text in earlier[:-1],
+                     case["extra"], clipped, prob[0] if prob else "ok"), nontrivial=changed)
+            if prob:
+                key = None
+                if step:
+                    # diagnosis (chooses the key): the same module at a path never used before
+                    fresh = render_traceback(sub, directory, modname + "_fresh")
+                    fresh_bad = isinstance(fresh[3], Exception) or \
+                        _judge_traceback(sub, fresh[0], fresh[1], fresh[2], fresh[3])[0] is not None
+                    if not fresh_bad:
+                        stale = [j for j, old in enumerate(earlier) if old != text and _rows_show(parsed, frames, old, sub)]
+                        if stale:
+                            key = "traceback/history/shows-earlier-version-of-file"
+                            prob = (prob[0], "%s; every shown line is the equally numbered line of the file as written "
+                                             "in step %d" % (prob[1], stale[-1] + 1))
+                        elif crash:
+                            key = _crash_key("traceback/history", out)
+                        else:
+                            key = "traceback/history/" + prob[0]
+                if key is None:
+                    key = _crash_key("traceback", out) if crash else "traceback/" + prob[0]
+                res.violate(key, case, "step %d of %d, path rewritten %d time(s): %s | file now %r | written before %r" % (
+                    step + 1, len(case["mods"]), step, prob[1], text, earlier))
+                return
+            earlier.append(text)
+    finally:
+        if path:
+            try:
+                os.remove(path)
+            except OSError:
+                pass
+        linecache.clearcache()
+
+
+def _part_tbh(sh, tier, res):
+    directory = tempfile.mkdtemp(prefix="vf_c17_")
+    try:
+        for idx, case in enumerate(_hist_cases(tier)):
+            if idx % sh["n"] != sh["i"]:
+                continue
+            if deadline_passed():
+                res.capped = True
+                break
+            check_history(case, directory, "c17h_%d_%d" % (sh["i"], idx), res)
+            res.count("tb_histories")
+            if idx % 211 == 0:
+                res.sample(case)
+    finally:
+        shutil.rmtree(directory, ignore_errors=True)
+        linecache.clearcache()
 
 
 def _part_tb(sh, tier, res):
@@ -602,7 +738,9 @@ def plan(tier, seed):
     ns = 64 if tier == "quick" else 256
     nt = 16 if tier == "quick" else 48
     # traceback shards first: they are the cheap part and must not be the one a wall cap cuts off
-    return [{"part": "tb", "i": i, "n": nt} for i in range(nt)] + \
+    nh = 8 if tier == "quick" else 16
+    return [{"part": "tbh", "i": i, "n": nh} for i in range(nh)] + \
+           [{"part": "tb", "i": i, "n": nt} for i in range(nt)] + \
            [{"part": "syn", "i": i, "n": ns} for i in range(ns)]
 
 
@@ -610,6 +748,8 @@ def run_shard(sh, tier, seed):
     res = Result()
     if sh["part"] == "syn":
         _part_syn(sh, tier, res)
+    elif sh["part"] == "tbh":
+        _part_tbh(sh, tier, res)
     else:
         _part_tb(sh, tier, res)
     return res
@@ -627,13 +767,20 @@ def describe(tier, seed, res):
                 "theme ansi_dark, width 20, tab_size 2) and every %s of deviations x {no range, (2,3)}; sources of %d lines "
                 "every single deviation x {no range, (2,3)}. Traceback: %d generated modules = 3 shapes x leading blank "
                 "lines x statements before the raise x lines after the call x trailing blank lines 0..3 x final newline x "
-                "extra_lines%s, executed and rendered at width 100. A case is non-trivial when at least one source line "
-                "is shown (Syntax); every traceback case is. distinct = distinct outcome signatures. This is not the full "
+                "extra_lines%s, executed and rendered at width 100, each under a path of its own; plus %d rewrite histories "
+                "of ONE path: all ordered pairs over a menu of %d module shapes (leading blank lines, length and raise line "
+                "vary) x extra_lines%s and all ordered triples over every second shape x extra_lines {0,3}: module 1 is "
+                "written, run and rendered, the same path is rewritten with module 2 (3), run and rendered again, and every "
+                "rendering is judged against the file as it is on disk then. A case is non-trivial when at least one source line "
+                "is shown (Syntax); every traceback case is (a history step when the file content changed). distinct = distinct outcome signatures. This is not the full "
                 "product of the options (deviation bound %d)." % (
                     nsrc, top, len(LINES), LEXERS, top, len(_opt_vectors(1)),
                     "pair" if tier == "quick" else "pair (all ranges for <%d lines) and triple" % (top - 1), top,
                     sum(1 for _ in _tb_cases(tier)),
-                    "" if tier == "quick" else " x indent_guides x word_wrap", 2 if tier == "quick" else 3),
+                    "" if tier == "quick" else " x indent_guides x word_wrap",
+                    sum(1 for _ in _hist_cases(tier)), 8 if tier == "quick" else 12,
+                    " {0,3}" if tier == "quick" else " {0,1,3,5} x indent_guides",
+                    2 if tier == "quick" else 3),
         "assumptions": [
             "source lines = code.expandtabs(tab_size).split('\\n'); blank lines after the last non-blank line may be shown or not",
             "with indent_guides the guide character U+2502 may stand where the source has a space",
@@ -643,7 +790,8 @@ def describe(tier, seed, res):
             "ranges with numbers shown)",
             "Pygments is trusted as the tokenizer; frame line numbers are CPython's, cross-checked against the generator",
         ],
-        "coverage": {"sources": nsrc, "source_lexer_units": res.counters.get("syn_units", 0)},
+        "coverage": {"sources": nsrc, "source_lexer_units": res.counters.get("syn_units", 0),
+                     "traceback_rewrite_histories": res.counters.get("tb_histories", 0)},
     }
 
 
@@ -654,7 +802,10 @@ def replay(case):
     else:
         directory = tempfile.mkdtemp(prefix="vf_c17_")
         try:
-            check_traceback(case, directory, "c17m_replay", res)
+            if case.get("part") == "tbh":
+                check_history(case, directory, "c17h_replay", res)
+            else:
+                check_traceback(case, directory, "c17m_replay", res)
         finally:
             shutil.rmtree(directory, ignore_errors=True)
     return [(k, v[2]) for k, v in sorted(res.violations.items())]
